@@ -79,9 +79,7 @@ class _Buffer:
         return word
 
     def read_bytes(self, bytes: int) -> List[int]:
-        byteaddr = self.bitaddr >> 3
-        self.bitaddr += 8 * bytes
-        return self.buffer[byteaddr : byteaddr + bytes]
+        return [self.read_word(8) for _ in range(bytes)]
 
     def get_buffer(self) -> bytearray:
         return bytearray(self.buffer)
